@@ -10,7 +10,8 @@ HERE = os.path.dirname(os.path.abspath(__file__))
 VERIF = os.path.dirname(HERE)
 LEAN = os.path.join(VERIF, 'lean')
 REPO = os.environ.get('MALT_REPO', '/repo')
-DRIVER = os.path.join(LEAN, '.lake', 'build', 'bin', 'maltdrv')
+def driver_path(prop):
+    return os.path.join(LEAN, '.lake', 'build', 'bin', 'drv_' + prop.lower())
 ALLOWED_AXIOMS = {'propext', 'Classical.choice', 'Quot.sound'}
 FORBIDDEN = re.compile(r'\b(sorry|admit|native_decide|bv_decide|implemented_by)\b|^\s*axiom\s|\bunsafe\s|maxHeartbeats\s+0\b')
 GUARD = 'DIASTATIC_MALT_VERIF'
@@ -19,7 +20,7 @@ TRUSTED_BASE = [
     'Lean 4.33.0 kernel (lake build; thorough tier re-checks the Props modules with leanchecker)',
     'axioms allowed in property theorems: propext, Classical.choice, Quot.sound (audited with #print axioms on every run)',
     'tools/extract.py (translator: /repo source -> lean/MaltModel/Generated/*.lean)',
-    'the S-expression line protocol between harness (Python) and maltdrv (Lean) and the canonicalisers on both ends',
+    'the S-expression line protocol between harness (Python) and the per-property native driver drv_cXX (Lean) and the canonicalisers on both ends',
     'the correspondence harness and its generators: what they do not generate is not tied to the code',
 ]
 
@@ -152,7 +153,7 @@ class Run:
             raise InfraError('lake build failed without a Lean error:\n' + out[-2000:])
         return rc == 0, out
 
-    def build_and_audit(self, props_module, extra_targets=('maltdrv',), model_files=()):
+    def build_and_audit(self, props_module, extra_targets=None, model_files=()):
         """Build Props module + driver, audit axioms of every property theorem in it, grep for
         forbidden constructs in the files that matter.  Each theorem is one obligation."""
         relpath = props_module.replace('.', '/') + '.lean'
@@ -168,10 +169,12 @@ class Run:
                 self.oblige('theorem:' + n, 'theorem', not bad, '\n'.join(errs) if bad else '')
             self.notes.append('lake build %s failed' % props_module)
         # the driver is built separately: a broken proof must not take the correspondence down with it
+        if extra_targets is None:
+            extra_targets = ['drv_' + self.prop.lower()]
         dok, dlog = self.lean_build(list(extra_targets)) if extra_targets else (True, '')
-        self.driver_ok = dok and os.path.exists(DRIVER)
+        self.driver_ok = dok and os.path.exists(driver_path(self.prop))
         if not self.driver_ok:
-            self.oblige('build:maltdrv', 'build', False, '\n'.join([l for l in dlog.split('\n') if 'error' in l][:12]))
+            self.oblige('build:drv_' + self.prop.lower(), 'build', False, '\n'.join([l for l in dlog.split('\n') if 'error' in l][:12]))
         if not ok:
             return False
         # audit
@@ -212,6 +215,11 @@ class Run:
                 if FORBIDDEN.search(line):
                     hits.append('%s:%d: %s' % (rp, i, line.strip()[:120]))
         self.oblige('grep:no-sorry-axiom-native_decide', 'audit', not hits, '\n'.join(hits))
+        if self.tier == 'thorough':
+            with LakeLock():
+                rc, out = sh(['lake', 'env', 'leanchecker', props_module], cwd=LEAN, timeout=3000)
+            self.oblige('leanchecker:' + props_module, 'audit', rc == 0, out[-800:])
+            all_ok = all_ok and rc == 0
         return all_ok and not hits
 
     def _failed_theorems(self, relpath, log):
@@ -240,14 +248,14 @@ class Run:
         if not self.driver_ok:
             raise InfraError('driver not built')
         data = '\n'.join(lines) + '\n'
-        p = subprocess.run([DRIVER], input=data, text=True, stdout=subprocess.PIPE, stderr=subprocess.PIPE, timeout=timeout)
+        p = subprocess.run([driver_path(self.prop)], input=data, text=True, stdout=subprocess.PIPE, stderr=subprocess.PIPE, timeout=timeout)
         if p.returncode != 0:
-            raise InfraError('maltdrv exited %d: %s' % (p.returncode, p.stderr[-500:]))
+            raise InfraError('driver exited %d: %s' % (p.returncode, p.stderr[-500:]))
         out = p.stdout.split('\n')
         if out and out[-1] == '':
             out.pop()
         if len(out) != len(lines):
-            raise InfraError('maltdrv answered %d lines for %d requests' % (len(out), len(lines)))
+            raise InfraError('driver answered %d lines for %d requests' % (len(out), len(lines)))
         return out
 
     # ---------------------------------------------------------------- finish
@@ -299,7 +307,7 @@ class Run:
         n_ok = len([o for o in self.obligations if o['ok']])
         coverage = {
             'obligations': n_ob, 'discharged': n_ok,
-            'checker_cmd': 'cd lean && lake build MaltModel.Props.%s maltdrv && lake env lean .lake/audit/Audit_%s.lean' % (self.prop, self.prop)
+            'checker_cmd': 'cd lean && lake build MaltModel.Props.%s drv_%s && lake env lean .lake/audit/Audit_%s.lean' % (self.prop, self.prop.lower(), self.prop)
                            + (' && lake env leanchecker MaltModel.Props.%s' % self.prop if self.tier == 'thorough' else ''),
             'trusted_base': TRUSTED_BASE + self.assumptions,
             'evaluations': self.evaluations,
@@ -329,11 +337,18 @@ class Run:
 
 
 def load_known_findings():
+    out = []
     p = os.path.join(VERIF, 'known_findings.json')
-    if not os.path.exists(p):
-        return []
-    with open(p) as f:
-        return json.load(f).get('findings', [])
+    if os.path.exists(p):
+        with open(p) as f:
+            out += json.load(f).get('findings', [])
+    d = os.path.join(VERIF, 'known_findings.d')
+    if os.path.isdir(d):
+        for fn in sorted(os.listdir(d)):
+            if fn.endswith('.json'):
+                with open(os.path.join(d, fn)) as f:
+                    out += json.load(f).get('findings', [])
+    return out
 
 
 def sexp(x):
